@@ -215,6 +215,32 @@ def native(seed=0):
         elif not abs(err - want_err) <= 1e-9 * max(1.0, want_err):
             bad.append(dict(what="reported screening error is not the relative mismatch between the previous iterate and the kernel sum", screening_step_size=alpha,
                             screening_step_drag=beta, reported=float(err), mismatch=want_err, ratio=float(err / want_err)))
+    # stored potential vs the sum over the stored currents on a device that was moved in place after meshing (sites, areas and edge centres as
+    # an independent reader would compute them from the mesh sites)
+    try:
+        dev_t = tdgl.Device("t", layer=layer, film=tdgl.Polygon("film", points=box(4, 2)), length_units="um")
+        dev_t.make_mesh(max_edge_length=0.5, smooth=10)
+        dev_t.translate(dx=3.0, dy=-2.0, inplace=True)
+        with tempfile.TemporaryDirectory() as td:
+            tol_t = 1e-4
+            sol_t = tdgl.solve(dev_t, tdgl.SolverOptions(solve_time=0.4, output_file=os.path.join(td, "t.h5"), include_screening=True, screening_tolerance=tol_t, save_every=5),
+                               applied_vector_potential=0.5)
+            sv_t = TDGLSolver(dev_t, sol_t.options, applied_vector_potential=0.5)
+            m_t = dev_t.mesh
+            em_t = m_t.edge_mesh
+            xi_t = dev_t.coherence_length.magnitude
+            centres = 0.5 * (m_t.sites[em_t.edges[:, 0]] + m_t.sites[em_t.edges[:, 1]]) * xi_t
+            d_t = sol_t.tdgl_data
+            J_site = m_t.get_quantity_on_site(d_t.supercurrent + d_t.normal_current)
+            K_t = np.full((len(em_t.edges), 2), np.nan)
+            get_A_induced_numba(J_site, sv_t.areas, m_t.sites * xi_t, centres, K_t)
+            n += 1
+            scale_t = np.abs(K_t).max() + 1e-300
+            mism = float(np.abs(K_t - d_t.induced_vector_potential).max() / scale_t)
+            if mism > 50 * tol_t:
+                bad.append(dict(what="stored induced potential of a device translated in place does not reproduce the sum over its stored currents", relative_mismatch=mism, tolerance=tol_t))
+    except Exception as e:  # noqa
+        bad.append(dict(what=f"translated-device screening case raised {type(e).__name__}: {str(e)[:120]}"))
     # nothing to screen (no field, no current): the loop must converge at once, not fail
     with tempfile.TemporaryDirectory() as td:
         n += 1
